@@ -29,6 +29,7 @@ TraceSkip == SkipStep /\ UNCHANGED vars
 
 TUpload == IsEvent("upload") /\ Strict /\ AUpload(Ev.to, Ev.k, Ev.c, Ev.d, vttl, Ev.res) /\ UNCHANGED vttl
 TDelete == IsEvent("delete") /\ Strict /\ ADelete(Ev.to, Ev.k, Ev.c, Ev.res) /\ UNCHANGED vttl
+TRace == IsEvent("race") /\ Strict /\ ARace(Ev.k, Ev.c, Ev.d1, Ev.d2, Ev.res1, Ev.res2) /\ UNCHANGED vttl
 TFault == IsEvent("fault") /\ Strict /\ AFault(Ev.kind, Ev.r, Ev.res) /\ UNCHANGED vttl
 AltIds(k) == {a.id : a \in UNION {alt[r][k] : r \in AllR}}
 TSnap ==
@@ -37,6 +38,6 @@ TSnap ==
   /\ ASnap(Ev.k, ObsFn)
   /\ UNCHANGED vttl
 
-TraceNext == TraceReset \/ TraceSkip \/ TUpload \/ TDelete \/ TFault \/ TSnap
+TraceNext == TraceReset \/ TraceSkip \/ TUpload \/ TDelete \/ TRace \/ TFault \/ TSnap
 TraceSpec == TraceInit /\ [][TraceNext]_tvars
 =============================================================================
